@@ -348,21 +348,26 @@ TRACE_CFG = "SPECIFICATION Spec\nCHECK_DEADLOCK FALSE\n"
 
 
 def validate(traces, timeout=1800):
-    """-> rejects; every trace gets a verdict from PipelineTrace"""
-    if not traces:
-        return []
-    fd, path = tempfile.mkstemp(prefix="vtr_", suffix=".json")
-    try:
-        with os.fdopen(fd, "w") as fh:
-            json.dump([{"cfg": t["cfg"], "cycles": t["cycles"]} for t in traces], fh)
-        res = tlc.run("PipelineTrace", TRACE_CFG, env={"TRACE_FILE": path}, workers=1, timeout=timeout)
-    finally:
-        os.unlink(path)
-    tlc.require_ok(res, "PipelineTrace")
-    acc, rej = tlc.tagged(res, "ACCEPT"), tlc.tagged(res, "REJECT")
-    if len(acc) + len(rej) != len(traces):
-        raise tlc.MachineryError(f"PipelineTrace: {len(acc)} accepted + {len(rej)} rejected != {len(traces)} traces")
-    return rej, res
+    """-> (rejects, states): every trace gets a verdict from PipelineTrace (TLC runs over chunks)"""
+    rej, states, base = [], 0, 0
+    for chunk in mh.chunks_by_lines(traces):
+        fd, path = tempfile.mkstemp(prefix="vtr_", suffix=".json")
+        try:
+            with os.fdopen(fd, "w") as fh:
+                json.dump([{"cfg": t["cfg"], "cycles": t["cycles"]} for t in chunk], fh)
+            res = tlc.run("PipelineTrace", TRACE_CFG, env={"TRACE_FILE": path}, workers=1, timeout=timeout)
+        finally:
+            os.unlink(path)
+        tlc.require_ok(res, "PipelineTrace")
+        acc, rj = tlc.tagged(res, "ACCEPT"), tlc.tagged(res, "REJECT")
+        if len(acc) + len(rj) != len(chunk):
+            raise tlc.MachineryError(f"PipelineTrace: {len(acc)} accepted + {len(rj)} rejected != {len(chunk)} traces")
+        for r in rj:
+            r["tid"] += base
+            rej.append(r)
+        base += len(chunk)
+        states += res.distinct
+    return rej, states
 
 
 # ---------------------------------------------------------------------------------------
@@ -524,9 +529,9 @@ def record(rep, shapes, cycles, tag):
 
 
 def judge(rep, traces):
-    rej, res = validate(traces)
+    rej, states = validate(traces)
     rep.add("traces_validated_against_impl", len(traces))
-    rep.add("trace_states", res.distinct)
+    rep.add("trace_states", states)
     groups = defaultdict(list)
     for r in rej:
         tr = traces[r["tid"] - 1]
